@@ -12,8 +12,11 @@
    a POk label whose position equals the parser's (a block header of zero bits).  With
    such labels the invariant is FALSE (XOwnRefuted.v exhibits a run that reaches
    can_terminate with order_q <> []).  The invariant is therefore proved over runs all of
-   whose POk labels advance the bit position by at least HDR_MIN = 32 bits (parse() in
-   parse.c consumes the 48-bit block magic and the 32-bit CRC before it returns OK). *)
+   whose POk labels lie at least HDR_MIN = 32 bits after the base of the block confirmed before
+   (parse() in parse.c consumes the 48-bit block magic and the 32-bit CRC of a header - possibly
+   over several calls that return MORE when the header straddles input blocks, so the LAST call
+   may consume fewer than 32 bits: the reference is the previous base [x_next], not the parser's
+   position at the start of the call.  Every trace replay checks this hypothesis). *)
 From Coq Require Import List NArith Bool Lia Arith ZifyBool ZifyN Sorted.
 From LBZ Require Import Gen.Consts SchedX.XState Gen.SchedXTab SchedX.XSet SchedX.XModel SchedX.XLemmas
   SchedX.XFrame SchedX.XInvDefs SchedX.XOps SchedX.XInv SchedX.XInv2 SchedX.XInv3 SchedX.XInv4 SchedX.XOracle.
@@ -25,7 +28,7 @@ Definition HDR_MIN : N := 32.
 
 Definition ev_prog (st : xstate) (e : event) : Prop :=
   match e with
-  | EvParse1 _ (POk bs _ _ _) => d_bit (x_parser_bs st) + HDR_MIN <= d_bit bs
+  | EvParse1 _ (POk bs _ _ _) => x_next st + HDR_MIN <= d_bit bs
   | _ => True
   end.
 
@@ -66,6 +69,10 @@ Definition lineabove (EL : list ejob) (RQ : list oblk) (b k : N) : Prop :=
   (exists o, In o RQ /\ o_status o <> MORE /\ fst (o_base o) = b /\ k <= snd (o_base o)).
 Definition la (st : xstate) : N -> N -> Prop := lineabove (estage st) (x_reord_q st).
 
+(* where a queued, complete candidate without a line may lie: at or before the block confirmed
+   last, or (its job was dropped because it fell behind head_offs) a whole word below head_offs *)
+Definition orph (st : xstate) (b : N) : Prop := b <= x_next st \/ b + 32 <= 32 * x_head_offs st.
+
 Definition mastered (JL : list rjob) (us : list unord) (b : N) : Prop :=
   exists j, In j JL /\ jm us j = true /\ fst (r_base j) = b.
 
@@ -77,7 +84,7 @@ Record ownp (H : list head) (JL : list rjob) (st : xstate) : Prop := mkownp {
          fst (r_base j) = x_next st /\ d_bit (x_parser_bs st) <= d_bit (r_cur j);
   o_u1 : forall u, In u (x_unords st) -> u_complete u = false -> exists j, In j JL /\ r_link j = Some (u_id u);
   o_u2 : forall u, In u (x_unords st) -> u_inq u = true -> u_complete u = true ->
-         la st (fst (u_base u)) 0 \/ fst (u_base u) < d_bit (x_parser_bs st) + HDR_MIN;
+         la st (fst (u_base u)) 0 \/ orph st (fst (u_base u));
   o_noinq : x_parsing_done st = true -> Forall (fun u => u_inq u = false) (x_unords st);
   o_next : x_parsing_done st = false -> x_next st <= d_bit (x_parser_bs st);
   o_pok : x_parsing_done st = false -> dbs_ok (x_parser_bs st) = true;
@@ -116,6 +123,7 @@ Record oview (st st' : xstate) : Prop := mkoview {
   ov_un : x_unords st' = x_unords st;
   ov_ro : x_reord_q st' = x_reord_q st;
   ov_nx : x_next st' = x_next st;
+  ov_hd : x_head_offs st' = x_head_offs st;
   ov_pb : x_parser_bs st' = x_parser_bs st;
   ov_dn : x_parsing_done st' = x_parsing_done st;
   ov_es : forall e, In e (estage st) -> In e (estage st')
@@ -130,7 +138,7 @@ Lemma ownp_view H JL JL' st st' :
   oview st st' -> (forall j, In j JL <-> In j JL') -> ownp H JL st -> ownp H JL' st'.
 Proof.
   intros V EJ [A B C D E F G K U3]. pose proof (la_view st st') as LV. destruct V.
-  constructor; rewrite ?ov_un0, ?ov_ro0, ?ov_nx0, ?ov_pb0, ?ov_dn0; auto.
+  constructor; unfold orph; rewrite ?ov_un0, ?ov_ro0, ?ov_nx0, ?ov_hd0, ?ov_pb0, ?ov_dn0; auto.
   - intros h Hh. destruct (A h Hh) as [[Z (j & J1 & J2)]|L]; [left; split; auto; exists j; split; [apply EJ; auto|auto]|right].
     apply LV; auto. constructor; auto.
   - intros o Ho S. apply LV; auto. constructor; auto.
@@ -244,13 +252,14 @@ Qed.
 (* ---- transfer when only the lines change ------------------------------------------------- *)
 Lemma ownp_la H JL JL' st st' :
   x_unords st' = x_unords st -> x_next st' = x_next st -> x_parser_bs st' = x_parser_bs st ->
+  x_head_offs st' = x_head_offs st ->
   x_parsing_done st' = x_parsing_done st -> (forall j, In j JL <-> In j JL') ->
   (forall b k, la st b k -> la st' b k) ->
   (forall o, In o (x_reord_q st') -> o_status o = MORE -> la st' (fst (o_base o)) (snd (o_base o) + 1)) ->
   ownp H JL st -> ownp H JL' st'.
 Proof.
-  intros E1 E2 E3 E4 EJ LV MO [A B C D E F G K U3].
-  constructor; rewrite ?E1, ?E2, ?E3, ?E4; auto.
+  intros E1 E2 E3 E5 E4 EJ LV MO [A B C D E F G K U3].
+  constructor; unfold orph; rewrite ?E1, ?E2, ?E3, ?E4, ?E5; auto.
   - intros h Hh. destruct (A h Hh) as [[Z (j & J1 & J2)]|L]; [left; split; auto; exists j; split; [apply EJ; auto|auto]|right; auto].
   - intros j Hj. apply C. apply EJ; auto.
   - intros u Hu Cu. destruct (D u Hu Cu) as (j & J1 & J2). exists j. split; auto. apply EJ; auto.
@@ -344,18 +353,18 @@ Proof.
   { intros o2 H2 S2. destruct (la_remove _ _ _ _ _ R (o_more _ _ _ I o2 (QS _ H2) S2)) as [L|(A & B & C)]; auto.
     exfalso. pose proof (MIN o2 (QS _ H2)) as M. apply not_true_iff_false in M. apply M. apply pos_lt_spec. unfold lexlt. lia. }
   (* no queued candidate once parsing is done; otherwise the heads are behind the parser *)
-  assert (U2 : forall st2, x_unords st2 = x_unords st -> x_parser_bs st2 = x_parser_bs st ->
+  assert (U2 : forall st2, x_unords st2 = x_unords st -> x_next st2 = x_next st -> x_head_offs st2 = x_head_offs st ->
                  estage st2 = estage st -> x_reord_q st2 = q ->
                  (x_parsing_done st = false -> o_status o <> MORE -> fst (o_base o) <= x_next st) ->
                  (x_parsing_done st = true \/ x_order_q st <> []) ->
                  forall u, In u (x_unords st2) -> u_inq u = true -> u_complete u = true ->
-                   la st2 (fst (u_base u)) 0 \/ fst (u_base u) < d_bit (x_parser_bs st2) + HDR_MIN).
-  { intros st2 E1 E2 E3 E4 HB HD u Hu Qu Cu. rewrite E1 in Hu. rewrite E2. unfold la. rewrite E3, E4.
+                   la st2 (fst (u_base u)) 0 \/ orph st2 (fst (u_base u))).
+  { intros st2 E1 E2 E2' E3 E4 HB HD u Hu Qu Cu. rewrite E1 in Hu. unfold orph. rewrite E2, E2'. unfold la. rewrite E3, E4.
     destruct (o_u2 _ _ _ I u Hu Qu Cu) as [L|L]; auto.
-    destruct (la_remove _ _ _ _ _ R L) as [L'|(A & B & C)]; auto. right.
+    destruct (la_remove _ _ _ _ _ R L) as [L'|(A & B & C)]; auto. right. left.
     destruct (x_parsing_done st) eqn:PD.
     - exfalso. pose proof (o_noinq _ _ _ I PD) as NI. rewrite Forall_forall in NI. rewrite (NI u Hu) in Qu. discriminate.
-    - pose proof (o_next _ _ _ I PD). specialize (HB eq_refl A). unfold HDR_MIN. lia. }
+    - specialize (HB eq_refl A). rewrite <- B. exact HB. }
   xs in H.
   destruct (x_order_q st) as [|ord rest] eqn:OQ.
   { (* nothing confirmed: parsing is done *)
